@@ -10,6 +10,10 @@ import sys
 SRC = sys.argv[1] if len(sys.argv) > 1 else '/tmp/seed_out'
 OFFSET = int(sys.argv[2]) if len(sys.argv) > 2 else 0      # round 2 stores its m1, m2 as m3, m4
 ROUND = 1 + OFFSET // 2
+KS = tuple(sys.argv[3].split(',')) if len(sys.argv) > 3 else ('m1', 'm2')       # round 4: m7,m8 stored under their own names (offset 0)
+if len(sys.argv) > 4:
+    ROUND = int(sys.argv[4])
+PROPS = sys.argv[5].split(',') if len(sys.argv) > 5 else ['C%02d' % i for i in range(1, 21)]
 # keyed by the stored name (m1, m2: round 1; m3, m4: round 2; m5, m6: round 3)
 SKIP = {('C19', 'm1'): 'breaks only "S(q-quantile) == target" for a quantile-derived `a` with explicit r != 1, which the statement of C19 does not promise',
         ('C19', 'm5'): 'changes a caller of distance_to_similarity (symbolization.alignment.agg_prob drops r=max_value); the transforms of similarity.py, which C19 is about, are untouched',
@@ -22,8 +26,8 @@ def main():
     table = {}
     if os.path.exists(os.path.join(out_root, 'DETECTION.json')):
         table = json.load(open(os.path.join(out_root, 'DETECTION.json')))
-    for p in ['C%02d' % i for i in range(1, 21)]:
-        for k in ('m1', 'm2'):
+    for p in PROPS:
+        for k in KS:
             d = os.path.join(SRC, p, k)
             if not os.path.exists(os.path.join(d, 'confirm.json')):
                 print('no confirm for', p, k)
@@ -56,6 +60,8 @@ def main():
                 'files': conf.get('files'),
                 'summary': meta.get('summary'),
                 'needs_to_manifest': meta.get('needs'),
+                'refactoring': meta.get('refactoring'),
+                'slip': meta.get('slip'),
                 'origin': 'written by a fresh sub-agent that saw only the text of the property and its own scratch worktree of /repo (nothing from /verif)',
                 'confirmed_by': {
                     'how': 'tools_seed_eval.py: scratch worktree of /repo HEAD + patch (extension rebuilt when C/Cython changed); demo.py on the original and on the '
@@ -76,6 +82,11 @@ def main():
             json.dump(m, open(os.path.join(dst, 'meta.json'), 'w'), indent=1)
             table['%s-%s' % (p, kk)] = det
             print(p, kk, det, errs)
+    # the table is rebuilt from the stored meta.json files (several instances of this tool may run side by side)
+    import glob
+    table = {}
+    for f in sorted(glob.glob(os.path.join(out_root, '*', 'meta.json'))):
+        table[os.path.basename(os.path.dirname(f))] = json.load(open(f))['checks']['reported_by']
     json.dump(table, open(os.path.join(out_root, 'DETECTION.json'), 'w'), indent=1)
 
 
